@@ -167,11 +167,9 @@ def oracle(case, rec):
             raise
         except Exception as e:
             raise PropertyViolation("C01/evaluate/" + type(e).__name__, "numeric evaluation raised %r" % (e,), case)
-        tf = float(np.abs(ref["pure"]).max()) if n_s else 0.0
-        if n_e:
-            tf += float(np.abs(ref["V"]).dot(np.abs(ref["rates"])).max())
+        tf = ir.term_scale(m, pt["x"], pt["t"], pt["theta"])
         _cmp(got_f, ref["f"], "ode(x,t)", "C01/ode", case, terms=tf)
-        _cmp(got_p, ref["pure"], "pureOdeVector(x,t)", "C01/pureOdeVector", case)
+        _cmp(got_p, ref["pure"], "pureOdeVector(x,t)", "C01/pureOdeVector", case, terms=tf)
         if n_e:
             _cmp(got_V, ref["V"], "vMat(x,t)", "C01/vMat", case)
             _cmp(got_a, ref["rates"], "eventRateVector(x,t)", "C01/eventRateVector", case)
@@ -180,7 +178,7 @@ def oracle(case, rec):
         _cmp(_sym_eval(ode_sym, m, pt, "get_ode_eqn()", "C01/get_ode_eqn", case).reshape(n_s), ref["f"],
              "get_ode_eqn()", "C01/get_ode_eqn", case, terms=tf)
         _cmp(_sym_eval(pure_sym, m, pt, "get_pureOdeVector()", "C01/get_pureOdeVector", case).reshape(n_s), ref["pure"],
-             "get_pureOdeVector()", "C01/get_pureOdeVector", case)
+             "get_pureOdeVector()", "C01/get_pureOdeVector", case, terms=tf)
         if n_e:
             _cmp(_sym_eval(V_sym, m, pt, "get_StateChangeMatrix()", "C01/get_StateChangeMatrix", case), ref["V"],
                  "get_StateChangeMatrix()", "C01/get_StateChangeMatrix", case)
@@ -203,9 +201,7 @@ def oracle(case, rec):
         except Exception as e:
             raise PropertyViolation("C01/symbolic-again/" + type(e).__name__, "second symbolic report raised %r" % (e,), case)
         ref = ir.reference_float(m, pt["x"], pt["t"], pt["theta"], order)
-        tf = float(np.abs(ref["pure"]).max()) if n_s else 0.0
-        if n_e:
-            tf += float(np.abs(ref["V"]).dot(np.abs(ref["rates"])).max())
+        tf = ir.term_scale(m, pt["x"], pt["t"], pt["theta"])
         _cmp(_sym_eval(again, m, pt, "get_ode_eqn()", "C01/get_ode_eqn-after-edit", case).reshape(n_s), ref["f"],
              "get_ode_eqn() after the caller edited the previous report in place", "C01/get_ode_eqn-after-edit", case, terms=tf)
         if n_e:
